@@ -151,11 +151,38 @@ Definition io_guard (v : C.pv) : bool :=
   | _ => true
   end.
 
-(* Where Core.unpack2 is right about a scalar element: Core unpacks a scalar through serdes.itervalues
-   (values_scalar); the code unpacks with iter().  They agree on non-mapping iterables (str, bytes, ...) and
-   on objects on which itervalues raises TypeError (int, None, float, ...).  They DISAGREE on objects that
-   are not iterable but have public fields (uuid.UUID: two slots) and on mappings (values vs keys):
-   Props/IoBridge.v, IoBridge_refuted_unpack_*. *)
+(* ---- the laws that tie the scalar fields of a core runtime to the iteration model ---- *)
+Record IterLaws (rt : C.runtime) : Prop := {
+  il_values : forall v, C.is_scalar v = true ->
+      rmap (map emb) (C.values_scalar rt v) = down (xvalues (emb v));
+  il_items : forall v, C.is_scalar v = true ->
+      rmap (map emb2) (C.items_scalar rt v) = down (xitems (emb v));
+  il_pairlike : forall v, C.is_scalar v = true -> C.pairlike_scalar rt v = I.is_pair_elem (emb v);
+  il_unpack : forall v, C.is_scalar v = true -> rmap emb2 (C.unpack_scalar rt v) = down (unpackI (emb v));
+  il_index : forall i, emb (C.index rt i) = I.VInt (Z.of_nat i)
+}.
+
+(* ---- the PREVIOUS definition of Core.unpack2 (before the runtime field unpack_scalar existed): a scalar
+   element was unpacked through serdes.itervalues (values_scalar); the code unpacks with iter().  Kept only to
+   record where it was right (unpack_guard) and where it was refuted (the IoBridge_pinned theorems of Props/IoBridge.v):
+   objects that are not iterable but have public fields (uuid.UUID: two slots), and mappings (values vs keys). ---- *)
+Section Pinned.
+Variable rt : C.runtime.
+Definition unpack2_pinned (v : C.pv) : C.res (C.pv * C.pv) :=
+  match v with
+  | C.PAtom _ | C.PKey _ =>
+      C.bind (C.values_scalar rt v) (fun l => match l with [a; b] => C.Ok (a, b) | _ => C.Raise C.EValue end)
+  | _ => C.unpack2 rt v
+  end.
+Definition iteritems_pinned (v : C.pv) : C.res (list (C.pv * C.pv)) :=
+  match v with
+  | C.PSeq _ (x :: r) =>
+      if C.pairlike rt x then C.mapM unpack2_pinned (x :: r) else C.Ok (C.enumerate_from rt 0 (x :: r))
+  | _ => C.iteritems rt E v
+  end.
+End Pinned.
+(* where the previous definition was right about a scalar element: non-mapping iterables (str, bytes, ...) and
+   objects on which itervalues raises TypeError (int, None, float, ...) *)
 Definition is_type_error (e : I.exn) : bool := match e with I.EType => true | _ => false end.
 Definition scalar_unpack_ok (x : I.val) : bool :=
   let cl := I.class_of x in
@@ -171,33 +198,6 @@ Definition unpack_guard (v : C.pv) : bool :=
       forallb (fun y => negb (C.is_scalar y) || scalar_unpack_ok (emb y)) (x :: r)
   | _ => true
   end.
-
-(* ---- the laws that tie the scalar fields of a core runtime to the iteration model ---- *)
-Record IterLaws (rt : C.runtime) : Prop := {
-  il_values : forall v, C.is_scalar v = true ->
-      rmap (map emb) (C.values_scalar rt v) = down (xvalues (emb v));
-  il_items : forall v, C.is_scalar v = true ->
-      rmap (map emb2) (C.items_scalar rt v) = down (xitems (emb v));
-  il_pairlike : forall v, C.is_scalar v = true -> C.pairlike_scalar rt v = I.is_pair_elem (emb v);
-  il_index : forall i, emb (C.index rt i) = I.VInt (Z.of_nat i)
-}.
-(* ... and the law of the corrected unpacking (below) *)
-Definition UnpackLaw (us : C.pv -> C.res (C.pv * C.pv)) : Prop :=
-  forall v, C.is_scalar v = true -> rmap emb2 (us v) = down (unpackI (emb v)).
-
-(* ---- Core.iteritems with the unpacking of scalar elements handed to the runtime (the correction) ---- *)
-Section Fixed.
-Variable rt : C.runtime.
-Variable us : C.pv -> C.res (C.pv * C.pv).     (* `k, v = x` on a scalar x *)
-Definition unpack2_fixed (v : C.pv) : C.res (C.pv * C.pv) :=
-  match v with C.PAtom _ | C.PKey _ => us v | _ => C.unpack2 rt v end.
-Definition iteritems_fixed (v : C.pv) : C.res (list (C.pv * C.pv)) :=
-  match v with
-  | C.PSeq _ (x :: r) =>
-      if C.pairlike rt x then C.mapM unpack2_fixed (x :: r) else C.Ok (C.enumerate_from rt 0 (x :: r))
-  | _ => C.iteritems rt E v
-  end.
-End Fixed.
 
 (* ---- the scalar fields DEFINED from the iteration model ---- *)
 (* i_back x: the core value that stands for the object x produced by iterating a scalar (a character, a
@@ -299,6 +299,7 @@ Definition io_runtime (P : shape) (E : C.env) (i_back : I.val -> option C.pv)
      C.values_scalar := ind_values P E i_back;
      C.items_scalar := ind_items P E i_back;
      C.pairlike_scalar := ind_pairlike P E;
+     C.unpack_scalar := ind_unpack P E i_back;
      C.index := ind_index i_back;
      C.unhashable_class := C.unhashable_class base; C.atom_eq := C.atom_eq base; C.none := C.none base;
      C.suppressed := C.suppressed base |}.
